@@ -89,6 +89,10 @@ def run_property(pid, tier, seed):
     prop = registry.PROPS[pid]
     want = {"quick": ("quick",), "thorough": ("quick", "thorough"), "full": ("quick", "thorough", "full")}[tier]
     harnesses = [h for h in prop["harnesses"] if h.get("tier", "quick") in want]
+    only = os.environ.get("VERIF_ONLY")  # probing aid: regex over harness names (never used by MANIFEST commands)
+    if only:
+        import re as _re
+        harnesses = [h for h in prop["harnesses"] if _re.search(only, h["name"])]
     known = load_known()
     groups = {}
     for h in harnesses:
